@@ -154,3 +154,58 @@ def job_polynomial(job):
                     fail({'what': 'compare is not transitive', 'a': a, 'b': b, 'c': c})
     out['distinct'] = len(distinct)
     return out
+
+
+def job_inverse_symbolic(job):
+    """Closed-form inverses as polynomial identities: for a symbolic operand x (one variable per stored blade) the real
+    codegen_inv(x, symbolic=True) returns (num, denom); x*num and num*x must equal the scalar denom *as rational functions*,
+    i.e. for every value of the coefficients.  Bound: the key patterns enumerated / sampled."""
+    import itertools
+    from kingdon.codegen import codegen_inv
+    from kingdon.polynomial import RationalPolynomial
+    from standins.native import make_algebra
+    rng = random.Random(job.get('seed', 0))
+    out = {'evaluations': 0, 'failures': [], 'samples': [], 'configs': 0}
+    n = 0
+    for cfg in job['configs']:
+        try:
+            alg = make_algebra(cfg)
+        except Exception as e:
+            out['failures'].append({'config': cfg, 'what': 'constructing an admissible algebra raised', 'error': repr(e)[:100]})
+            continue
+        out['configs'] += 1
+        N = 2 ** alg.d
+        pats = []
+        for size in cfg.get('sizes', [1, 2, 3]):
+            allp = list(itertools.combinations(range(N), size))
+            lim = cfg.get('per_size', 40)
+            pats += allp if len(allp) <= lim else rng.sample(allp, lim)
+        for ks in pats:
+            ks = list(ks)
+            rng.shuffle(ks)
+            x = alg.multivector(name='x', keys=tuple(ks), symbolcls=RationalPolynomial.fromname)
+            out['evaluations'] += 1
+            n += 1
+            try:
+                num, denom = codegen_inv(x, symbolic=True)
+            except Exception as e:
+                out['failures'].append({'config': cfg, 'keys': ks, 'what': 'codegen_inv raised', 'error': repr(e)[:120]})
+                continue
+            dn = den_rat(denom)
+            for side, prod in (('x*num', x * num), ('num*x', num * x)):
+                bad = None
+                for k, v in zip(prod.keys(), prod.values()):
+                    pv = den_rat(v)
+                    if k == 0:
+                        if not rat_eq(pv, dn):
+                            bad = 'scalar part differs from the denominator'
+                    elif pv[0] != Poly():
+                        bad = f'blade {alg.bin2canon[k]} of {side} is not identically zero'
+                if 0 not in prod.keys() and dn[0] != Poly():
+                    bad = 'scalar part missing'
+                if bad and len(out['failures']) < 10:
+                    out['failures'].append({'config': cfg, 'keys': ks, 'what': f'{side} != denominator (as polynomials in the coefficients): {bad}'})
+        if len(out['samples']) < 2:
+            out['samples'].append({'config': cfg, 'patterns': len(pats), 'example_keys': pats[-1] if pats else None})
+    out['distinct'] = n
+    return out
